@@ -46,7 +46,7 @@ def seg(rng, cls, ivals, fvals):
         k = rng.choice("IFS")
         return "W%s,%s" % (k, str(rng.choice(ivals)) if k == "I" else ("%016x" % rng.choice(fvals)) if k == "F" else h(rng.choice(STRS)))
     if cls == "showc":
-        k = rng.choice("ALT")
+        k = rng.choice("ALTUD")
         n = rng.choice([0, 1, 3]) * (2 if k == "T" else 1)
         return "W%s,%s" % (k, ",".join(str(rng.randint(-9, 99)) for _ in range(n)))
     raise ValueError(cls)
@@ -110,17 +110,32 @@ def matrix_execs(rng, quick):
         for w in ("", "1", "4"):
             for v in (33, 65, 126, 255, 1):
                 lines.append("print %s %d C%s,I,%d" % (rng.choice("SF"), rng.choice([0, 4]), h("%" + j + w + "c"), v))
+    # piece lengths: every output length of one conversion / one literal run across the sizes where an implementation may
+    # switch buffers (small stack buffers, powers of two)
+    lens = list(range(0, 140)) + [254, 255, 256, 257, 511, 512, 513, 1023, 1024, 1025]
+    if not quick:
+        lens = list(range(0, 600)) + [1023, 1024, 1025, 2047, 2048, 2049, 4095, 4096, 4097]
+    for n in lens:
+        sink = rng.choice("SF")
+        lines.append("print %s %d C%s,S,%s" % (sink, rng.choice([0, 4]), h("%%%ds" % n if n else "%s"), h(b"ab")))
+        lines.append("print %s 0 C%s,S,%s" % (rng.choice("SF"), h("%s"), h(bytes(rng.choice(b"abcxyz") for _ in range(n)))))
+        lines.append("print %s 0 C%s,I,%d" % (rng.choice("SF"), h("%%%dli" % n if n else "%li"), rng.choice([-7, 123456789012])))
+        if 0 < n < 400:
+            lines.append("print %s 0 L%s C%s,I,5 L%s" % (rng.choice("SF"), h("x" * n), h("%d"), h("y" * n)))
+            lines.append("print %s 0 C%s,F,%016x" % (rng.choice("SF"), h("%%.%df" % min(n, 300)), fbits(1.0 / 3)))
     return [["reset"] + lines[i:i + 80] for i in range(0, len(lines), 80)]
 
 def round_execs(rng, quick):
     lines = []
     ivals = vints(rng, 24) + [rng.randint(-2**63, 2**63 - 1) for _ in range(600 if quick else 6000)]
     fv = []
-    for e in range(-300, 300, 30 if quick else 3):
+    for e in range(-300, 300, 1):             # every decade: the shown text takes every length up to 300+ characters
         fv += [fbits(rng.uniform(1, 10) * 10.0 ** e), fbits(-rng.uniform(1, 10) * 10.0 ** e)]
     fv += [fbits(x) for x in (0.0, 1.0, -1.0, 0.5, 123456.789012, 1e15 + 0.3, 2.5e-7, 1.7976931348623157e308, 5e-324)]
     strs = [b"%", b"%%", b"%d %s", b"100%\n", b"", b"a", b'"', b"\\", b"a\nb", b"\a\b\f\n\r\t\v", b"'?", b"\x80\xfe\xff", b"mixed \"q\" \\ \t end", b"\\n"]
     strs += [bytes(rng.randint(1, 255) for _ in range(rng.randint(0, 12))) for _ in range(200 if quick else 2000)]
+    for n in (list(range(13, 140)) + [255, 256, 257, 511, 512, 513, 1023, 1024, 1025] + ([] if quick else list(range(140, 600)) + [4095, 4096, 4097])):
+        strs.append(bytes(rng.choice(b"abc \\\"\n") for _ in range(n)))          # every length: readers with fixed buffers
     # every string of length <= 2 (thorough: <= 3) over the characters the escape layer treats specially and their neighbours
     # (the Codec model is exhaustive over the same classes): combinations matter, e.g. "??", "\\n", "\\" + digit
     alpha = b"\a\b\f\n\r\t\v\\?'\"abfnrtvx0 7\x80%"
